@@ -91,7 +91,7 @@ def native_check(quick=True):
             n += 2
             if len(a) != len(b) or any(not torch.equal(x, y) for x, y in zip(a, b)):
                 fails.append("%s: two runs seeded with %d differ (numpy/random perturbed in between)" % (kind, seed))
-            for other in (seed + 1, -seed, seed + 2 ** 20):
+            for other in (seed + 1, -seed if seed else -1, seed + 2 ** 20):
                 c = history(kind, other, 1)
                 n += 1
                 if torch.equal(a[0], c[0]) and torch.equal(a[-1], c[-1]):
